@@ -65,6 +65,15 @@ func refRemove(s hx.Sets, ids []string) hx.Sets {
 
 func c08Property(t *rapid.T) {
 	hx.Eval()
+	// half of the histories keep results and arguments as the operations hand them out (no defensive clones):
+	// a sequence of operations must keep every list well-formed even when lists were derived from one another
+	aliased := rapid.Bool().Draw(t, "aliased")
+	arg := func(nl *sbom.NodeList) *sbom.NodeList {
+		if aliased {
+			return nl
+		}
+		return cloneNL(nl)
+	}
 	pool := []*sbom.NodeList{c08List(t, "P0"), c08List(t, "P1")}
 	var hist []string
 	history := func() string { return "    " + strings.Join(hist, "\n    ") }
@@ -77,7 +86,7 @@ func c08Property(t *rapid.T) {
 		if nl == nil {
 			nl = &sbom.NodeList{}
 		}
-		nl = cloneNL(nl)
+		nl = arg(nl)
 		if len(pool) < 4 {
 			pool = append(pool, nl)
 			return len(pool) - 1
@@ -92,21 +101,21 @@ func c08Property(t *rapid.T) {
 	t.Repeat(map[string]func(*rapid.T){
 		"union": func(t *rapid.T) {
 			i, j := pick("i"), pick("j")
-			r := pool[i].Union(cloneNL(pool[j]))
+			r := pool[i].Union(arg(pool[j]))
 			wfCheck(t, fmt.Sprintf("P%d.Union(P%d)", i, j), r, true, history)
 			k := put(r)
 			logf("P%d = P%d.Union(P%d) = %s", k, i, j, hx.DescribeNL(pool[k]))
 		},
 		"intersect": func(t *rapid.T) {
 			i, j := pick("i"), pick("j")
-			r := pool[i].Intersect(cloneNL(pool[j]))
+			r := pool[i].Intersect(arg(pool[j]))
 			wfCheck(t, fmt.Sprintf("P%d.Intersect(P%d)", i, j), r, true, history)
 			k := put(r)
 			logf("P%d = P%d.Intersect(P%d) = %s", k, i, j, hx.DescribeNL(pool[k]))
 		},
 		"add": func(t *rapid.T) {
 			i, j := pick("i"), pick("j")
-			pool[i].Add(cloneNL(pool[j]))
+			pool[i].Add(arg(pool[j]))
 			mutSteps++
 			logf("P%d.Add(P%d) -> %s", i, j, hx.DescribeNL(pool[i]))
 			wfCheck(t, fmt.Sprintf("P%d.Add(P%d)", i, j), pool[i], true, history)
@@ -168,9 +177,8 @@ func c08Property(t *rapid.T) {
 			ty := rapid.SampledFrom(c08Types).Draw(t, "ty")
 			before := hx.Snapshot(pool[i])
 			bs := hx.GraphSets(pool[i])
-			arg := cloneNL(pool[j])
 			present := nodeByID(pool[i], anchor) != nil
-			err := pool[i].RelateNodeListAtID(arg, anchor, ty)
+			err := pool[i].RelateNodeListAtID(arg(pool[j]), anchor, ty)
 			mutSteps++
 			logf("P%d.RelateNodeListAtID(P%d, at %q, %v) err=%v -> %s", i, j, anchor, ty, err, hx.DescribeNL(pool[i]))
 			if (err != nil) != !present {
@@ -251,6 +259,7 @@ func c08Property(t *rapid.T) {
 			}
 		},
 	})
+	hx.ClassIf(aliased, "no_defensive_clones")
 	hx.ClassIf(mutSteps >= 3, "three_or_more_mutating_steps")
 	hx.ClassIf(removedRootOrEndpoint, "removed_root_or_edge_endpoint")
 	if mutSteps >= 3 && removedRootOrEndpoint {
